@@ -413,6 +413,11 @@ class Analysis:
                 if op["k"] not in ("copy", "move"):
                     continue
                 if body.pty(op["place"])["k"] != "bool":
+                    # Option-valued flag: `done = Some(result)` only under evidence, `match done { Some(r) => Ok(r), None => Err }`
+                    oe = self.option_flag_edge(body, bi, t, reach)
+                    if oe is not None:
+                        new_edges.add(oe)
+                        records[oe] = {"block": bi, "edge": "Some", "where": t["span"]}
                     continue
                 origin = self.op_bool_flagaware(body, op, reach)
                 true_t, false_t = switch_bool_targets(t)
@@ -428,6 +433,45 @@ class Analysis:
                 break
             edges = new_edges
         return edges, list(records.values())
+
+    def option_flag_edge(self, body, bi, t, reach):
+        l, sp = strip_place(t["op"]["place"])
+        if sp:
+            return None
+        ds = self.D(body).of(l)
+        if len(ds) != 1 or ds[0][0] != "stmt" or ds[0][4]["k"] != "discr":
+            return None
+        src = ds[0][4]["place"]
+        if src["p"]:
+            return None
+        fl = src["l"]
+        if not body.lty(fl)["s"].startswith("std::option::Option<") or 1 <= fl <= body["arg_count"]:
+            return None
+        some_cut = False
+        for d in self.D(body).of(fl):
+            if d[0] != "stmt" or d[3]["p"]:
+                return None
+            rv = d[4]
+            if rv["k"] == "use" and rv["op"]["k"] in ("copy", "move") and not strip_place(rv["op"]["place"])[1]:
+                # through a temporary: `_flag = move _tmp` with `_tmp = Some(..)`
+                tds = self.D(body).of(rv["op"]["place"]["l"])
+                if len(tds) == 1 and tds[0][0] == "stmt" and not tds[0][3]["p"]:
+                    rv = tds[0][4]
+            if rv["k"] == "agg" and rv["kind"].get("adt") == "std::option::Option":
+                if rv["kind"]["variant"] == "Some":
+                    if d[1] in reach:
+                        return None       # a Some(..) assigned on a path without evidence
+                    some_cut = True
+                continue
+            if rv["k"] == "use" and rv["op"]["k"] == "const" and "None" in rv["op"].get("text", ""):
+                continue
+            return None
+        if not some_cut:
+            return None
+        for v, tgt in t["targets"]:
+            if v == "1":
+                return (bi, tgt)
+        return None
 
     def op_bool_flagaware(self, body, op, reach):
         """bool origin where a `true` constant assigned in a block that is unreachable without
